@@ -116,6 +116,20 @@ theorem drainNotifications_frame : ∀ (ns : List (Nat × DataRequest)) {s s' : 
 
 /-! ### datalog -/
 
+/-- the wake-up of parked group members touches trackers, ready queue and waiter lists only -/
+theorem wakeParked_frame {s s' : RState} {logs : List Nat} (h : wakeParked s logs = .ok s') : AckFrame s s' :=
+  wakeParked_rel AckFrame AckFrame.refl (fun _ _ _ => AckFrame.trans)
+    (fun _ _ _ _ => AckFrame.of_eq rfl rfl) (fun _ _ ns h => drainNotifications_frame ns h) h
+
+theorem wakeTurnMoved_frame {s s' : RState} (h : wakeTurnMoved s = .ok s') : AckFrame s s' :=
+  wakeTurnMoved_rel AckFrame AckFrame.refl (fun _ _ _ => AckFrame.trans)
+    (fun _ _ _ _ => AckFrame.of_eq rfl rfl) (fun _ _ ns h => drainNotifications_frame ns h)
+    (fun _ => AckFrame.of_eq rfl rfl) h
+
+theorem noteTurn_frame (s0 s1 : RState) (req : DataRequest) : AckFrame s1 (noteTurn s0 s1 req) := by
+  obtain ⟨tm, e⟩ := noteTurn_eq s0 s1 req
+  rw [e]; exact AckFrame.of_eq rfl rfl
+
 theorem dlMatches_frame {s s' : RState} {topic : String} {v : List Nat}
     (h : dlMatches s topic = .ok (s', v)) : AckFrame s s' := by
   unfold dlMatches at h
